@@ -1536,9 +1536,9 @@ class CacheSetting(Xettings):
         type_str="str",
     )
 
-    ENABLE_COMMANDS_CACHE = Var(
-        default=True,
-        doc="Command names in a directory are cached when enabled. "
+    ENABLE_COMMANDS_CACHE = Var.with_default(
+        True,
+        "Command names in a directory are cached when enabled. "
         "On some platforms it may not be accurate enough "
         "(e.g. Windows, Linux save mtime in seconds). "
         "Setting it to False would disable the caching mechanism "
